@@ -502,7 +502,37 @@ pub fn run(a: &Args, out: &mut Out) {
             acc.doc_with(out, &mut pool, &mut r, "huge", &doc, &keys, true, 40, &prelude);
         }
     }
-    acc.finish(out, "random well-formed documents (depth<=6, fan-out from {0,1,2,3,4,5,15,16,17,31,32}, every int/float/str/array/map format incl. non-minimal headers, 15% with duplicate keys) plus documents with strings of 255/256, 2^14-3..2^14+2, 65535/65536/70000 bytes and arrays/maps of 255/256 (thorough: also 2^14-3..2^14+2) elements, plus containers of 1025..4100 strings/arrays/pairs read with 120-call histories that keep using early handles; per document 20-60 read calls chosen adaptively among ALL handles obtained so far (sibling after half-descended child, revisits, by-name/by-interned-id/by-index/key-at-index/len/string bytes, out-of-range or wrong-kind scopes, 3% undecodable scope, root re-fetched); each document runs in a child process so an abort is an observation; non-trivial = some call reached a non-error value below the root; distinct = distinct (document prefix, op list)");
+    flat_last(&mut acc, out, &mut pool, &mut rng, thorough);
+    acc.finish(out, "random well-formed documents (depth<=6, fan-out from {0,1,2,3,4,5,15,16,17,31,32}, every int/float/str/array/map format incl. non-minimal headers, 15% with duplicate keys) plus documents with strings of 255/256, 2^14-3..2^14+2, 65535/65536/70000 bytes and arrays/maps of 255/256 (thorough: also 2^14-3..2^14+2) elements, plus containers of 1025..4100 strings/arrays/pairs read with 120-call histories that keep using early handles; plus flat arrays/maps of 20000..70000 elements incl. ones with a 32-bit length header that exactly fill the rest of the input; per document 20-60 read calls chosen adaptively among ALL handles obtained so far (sibling after half-descended child, revisits, by-name/by-interned-id/by-index/key-at-index/len/string bytes, out-of-range or wrong-kind scopes, 3% undecodable scope, root re-fetched); each document runs in a child process so an abort is an observation; non-trivial = some call reached a non-error value below the root; distinct = distinct (document prefix, op list)");
+}
+
+/// flat containers of one-byte elements whose header is the 32-bit length form, the container being the LAST thing in the
+/// input (root, or last value of the enclosing array): every byte after the header is an element and nothing follows.
+/// Compared with the eager spec only (class `huge`).
+fn flat_last(acc: &mut Acc, out: &mut Out, pool: &mut Pool, rng: &mut Rng, thorough: bool) {
+    let sizes: &[usize] = if thorough { &[65535, 65536, 70000, 140000] } else { &[65535, 65536, 70000] };
+    for (i, &n) in sizes.iter().enumerate() {
+        for shape in 0..3 {
+            let mut r = rng.fork(900_000 + (i * 3 + shape) as u64);
+            let inner = if shape == 2 {
+                Wire::Map(LenFmt::L32, (0..n).map(|k| (Wire::Str(StrFmt::Fix, vec![b'a' + (k % 26) as u8]), Wire::Nil)).collect())
+            } else {
+                Wire::Arr(LenFmt::L32, (0..n).map(|k| Wire::Int(IntFmt::PFix, (k % 100) as i128)).collect())
+            };
+            let tree = if shape == 1 { Wire::Arr(LenFmt::Fix, vec![Wire::Nil, inner]) } else { inner };
+            let doc = tree.bytes();
+            let keys: Vec<Vec<u8>> = vec![b"a".to_vec(), b"z".to_vec()];
+            let prelude = match shape {
+                0 => format!("ROOT;LEN 0;IDX 0 0;IDX 0 {};IDX 0 {};LEN 0", n - 1, n),
+                1 => format!("ROOT;IDX 0 1;LEN 1;IDX 1 0;IDX 1 {};IDX 1 {};IDX 0 0;LEN 1", n - 1, n),
+                _ => format!("ROOT;LEN 0;KEY 0 0;KEY 0 {};IDX 0 {};PROP 0 61;LEN 0", n - 1, n - 1),
+            };
+            // provider-level calls only: the eager spec is the oracle (it has no api::Value calls)
+            let api = acc.api; acc.api = false;
+            acc.doc_with(out, pool, &mut r, "huge", &doc, &keys, true, 12, &prelude);
+            acc.api = api;
+        }
+    }
 }
 
 /// C08: arbitrary / malformed input bytes.
@@ -597,5 +627,6 @@ pub fn run_c11(a: &Args, out: &mut Out) {
         acc.evals += ops.len() as u64;
         emit_case(out, acc.id, "c11", &doc, &ops, &obs); acc.id += 1;
     }
-    acc.finish(out, "documents holding a string (and, at the smaller sizes, an array and a map) of n bytes/elements/entries for n in {0..40, 255, 256, 2^14-3..2^14+2, 65535, 65536, 70000}, at the root or nested, reached by name / by index / key-at-index; 40 adaptive calls per document, most of them through the api::Value accessors (array_len, obj_len, as_string, get_obj_key_at_index, get_at_index, get_obj_prop) and the rest through the raw provider calls (get_val_len, read bytes); non-trivial = an accessor returned a length; distinct = distinct sizes. On the 64-bit host the inline limit is 2^46-1, so the sentinel branch of the accessors is exercised by the model at W=32 and by the Miri/i686 run only");
+    flat_last(&mut acc, out, &mut pool, &mut rng, thorough);
+    acc.finish(out, "documents holding a string (and, at the smaller sizes, an array and a map) of n bytes/elements/entries for n in {0..40, 255, 256, 2^14-3..2^14+2, 65535, 65536, 70000}, at the root or nested, reached by name / by index / key-at-index; 40 adaptive calls per document, most of them through the api::Value accessors (array_len, obj_len, as_string, get_obj_key_at_index, get_at_index, get_obj_prop) and the rest through the raw provider calls (get_val_len, read bytes); plus flat arrays/maps of 65535, 65536, 70000 one-byte elements with a 32-bit length header that are the LAST thing in the input (root or last value), compared with the eager spec; non-trivial = an accessor returned a length; distinct = distinct sizes. On the 64-bit host the inline limit is 2^46-1, so the sentinel branch of the accessors is exercised by the model at W=32 and by the Miri/i686 run only");
 }
